@@ -13,8 +13,8 @@
    against the implementation by the correspondence and the law, and covered by the direct
    theorems [add_mapped_trait_installs_shadow], [remove_mapped_trait_clears_derived_name],
    [remove_trait_restores_class_rule_for_derived_names] at the end. *)
-From Coq Require Import ZArith List Bool.
-From TV Require Import Common.Harness C13.Model C13.Law C13.Corr C13.Proofs C13.MapProofs C13.ListenerProofs C13.ClassOpProofs C13.ListenerInd C13.ClassOpInd.
+From Coq Require Import ZArith List Bool Lia.
+From TV Require Import Common.Harness C13.Model C13.Law C13.Corr C13.Proofs C13.MapProofs C13.ListenerProofs C13.ClassOpProofs C13.ListenerInd C13.ClassOpInd C13.ClassOpSub C13.MapInterleave.
 Import ListNotations.
 Open Scope Z_scope.
 
@@ -799,3 +799,187 @@ Theorem law_holds_on_interleaved_class_operation_runs :
     law_hist_ta [k] hh i [l_init] (run_t hh [k] (tables hh, [([], [])]) (map (top_of k) xs)) = [].
 Proof. exact interleaved_class_ops_run. Qed.
 Print Assumptions law_holds_on_interleaved_class_operation_runs.
+
+(* Subclasses.  [Ext v v' n p]: the declarative tables v' are v with the declaration (n -> p) added
+   if absent (explicit name or wildcard).  An accepted add_class_trait extends the declarative
+   tables of the class itself; the extension is inherited through the body of every class that has
+   that class as its single base; and _add_class_trait(is_subclass=True) keeps a subclass's model
+   tables in agreement with the extended declarative tables. *)
+Theorem accepted_add_class_trait_extends_the_class :
+  forall V cd n p, plainp p = true ->
+    (if ends_us n then amem (removelast n) (snd (vis_class V cd)) else amem n (fst (vis_class V cd))) = false ->
+    Ext (vis_class V cd) (vis_class V (mkClass (c_decls cd ++ [(n, p)]) (c_bases cd))) n p.
+Proof. exact Ext_own. Qed.
+Print Assumptions accepted_add_class_trait_extends_the_class.
+
+Theorem runtime_declaration_is_inherited_by_single_base_subclass :
+  forall V V' cd b n p, c_bases cd = [b] ->
+    Ext (vis_nth V b) (vis_nth V' b) n p -> assoc [] (snd (vis_nth V b)) <> None ->
+    Ext (vis_class V cd) (vis_class V' cd) n p.
+Proof. exact Ext_inherit. Qed.
+Print Assumptions runtime_declaration_is_inherited_by_single_base_subclass.
+
+Theorem add_class_trait_on_subclass_agrees_with_inherited_declaration :
+  forall t v v' n p t', plainp p = true ->
+    Agr t v -> Ext v v' n p -> add_class1 true t n p = Some t' -> Agr t' v'.
+Proof. exact Agr_add_sub. Qed.
+Print Assumptions add_class_trait_on_subclass_agrees_with_inherited_declaration.
+
+(* ... and the hierarchy-level theorem.  [Path hh k j]: class j is reached from class k through
+   classes that each have exactly one base (any hierarchy around them).  Any sequence of
+   add_class_trait calls on the BASE class k (accepted or rejected, explicit names and wildcards),
+   then every clean history on a fresh instance of the SUBCLASS j: the law holds with the rule of j
+   computed from the hierarchy with the accepted declarations appended to the body of k, i.e.
+   inherited by j unless j or a class in between defines the name itself. *)
+Theorem law_holds_for_subclass_instances_after_runtime_declarations :
+  forall hh k j adds ops i,
+    Path hh k j -> j <> k ->
+    plain_t (tabs_nth (tables hh) k) = true -> plain_t (tabs_nth (tables hh) j) = true ->
+    forallb (fun e => plainp (snd e)) adds = true ->
+    let ph := class_phase hh k (tables hh) hh adds in
+    let t := tabs_nth (fst ph) j in
+    clean_run (snd t) (init_state (fst t)) ops = true ->
+    law_hist (class_rule (vis_nth (visible (snd ph)) j)) i l_init (run (snd t) (init_state (fst t)) ops) = [].
+Proof. exact subclass_runtime_declarations. Qed.
+Print Assumptions law_holds_for_subclass_instances_after_runtime_declarations.
+
+Theorem runtime_declaration_reaches_the_whole_single_base_path :
+  forall hh k n p, (k < length hh)%nat -> plainp p = true ->
+    (if ends_us n then amem (removelast n) (snd (vis_nth (visible hh) k)) else amem n (fst (vis_nth (visible hh) k))) = false ->
+    forall j, Path hh k j -> Ext (vis_nth (visible hh) j) (vis_nth (visible (app_decl hh k (n, p))) j) n p.
+Proof. exact Ext_path. Qed.
+Print Assumptions runtime_declaration_reaches_the_whole_single_base_path.
+
+(* Non-vacuity (the second half of the C13-t2 demo, one level deeper): Base(HasStrictTraits) declares
+   tr_ = ReadOnly; Derived(Base); Leaf(Derived) declares z = Any(5).  On Base at run time: t_ = Int (accepted),
+   tr_ = Disallow (rejected), tq = Constant(3) (accepted), z = Event (accepted on Base, kept out of Leaf).
+   On a Leaf instance: trx is still write-once, tc is an Int, tq the constant, z Leaf's own, w rejected. *)
+Example subclass_runtime_declarations_nontrivial :
+  let hh := roots ++ [mkClass [([116; 114; 95], PReadOnly VUndef)] [1%nat]; mkClass [] [3%nat]; mkClass [([122], PAny 5)] [4%nat]] in
+  let adds := [([116; 95], PTyped VInt 7); ([116; 114; 95], PDisallow); ([116; 113], PConstant 3); ([122], PEvent None)] in
+  let ph := class_phase hh 3 (tables hh) hh adds in
+  let t := tabs_nth (fst ph) 5 in
+  let ops := [OSet [116; 114; 120] 101; OSet [116; 114; 120] 102; OGet [116; 114; 120]; OGet [116; 99]; OSet [116; 99] 101;
+              OGet [116; 113]; OGet [122]; OGet [119]] in
+  Path hh 3 5 /\
+  plain_t (tabs_nth (tables hh) 3) = true /\ plain_t (tabs_nth (tables hh) 5) = true /\
+  clean_run (snd t) (init_state (fst t)) ops = true /\
+  map (fun e => length (c_decls e)) (snd ph) = [3; 1; 2; 4; 0; 1]%nat /\
+  map (fun x => o_out (snd x)) (run (snd t) (init_state (fst t)) ops) =
+  [Done; Raise TraitError; Val 101; Val 7; Raise TraitError; Val 3; Val 5; Raise AttributeError].
+Proof.
+  split.
+  - apply (PS _ _ 4%nat 5%nat); [apply (PS _ _ 3%nat 4%nat); [constructor| | |]| | |]; simpl; try lia; reflexivity.
+  - vm_compute. repeat split; reflexivity.
+Qed.
+
+(* ------------------------------------------------------------------ *)
+(* Depth round, item 3: the life of a mapped trait interleaved with operations on other names
+   (coq/C13/MapInterleave.v).  The hypothesis is one boolean over the run, [iclean]: outside a
+   life any clean operation, or add_trait(n, Map(m, d)) with d a key of m, which opens a life;
+   inside the life of n: remove_trait(n) closes it, get/set/del of n and n_ are unrestricted,
+   and every other operation (get, set, del, add_trait of a plain trait, remove_trait) must be
+   clean and on a name k "far" from the pair: k, k_ and (when k ends in _) k without its last
+   character are all different from n and n_.  Lives may follow each other in any number, each
+   with its own n, m, d. *)
+
+Theorem law_holds_on_mapped_lives_interleaved_with_other_names :
+  forall (h : list classdef) (c : nat) (os : list op) (i : Z),
+    plain_class h c = true ->
+    let t := class_tables h c in
+    iclean (snd t) None (init_state (fst t)) os = true ->
+    law_hist (spec_rule h c) i l_init (run (snd t) (init_state (fst t)) os) = [].
+Proof. exact interleaved_lives_spec. Qed.
+Print Assumptions law_holds_on_mapped_lives_interleaved_with_other_names.
+
+(* the same under the MRO reading the checker uses, for single-inheritance hierarchies *)
+Theorem law_holds_on_interleaved_mapped_lives_under_mro_reading :
+  forall (h : list classdef) (c : nat) (os : list op) (i : Z),
+    single h = true -> (c < length (roots ++ h))%nat ->
+    plain_class h c = true ->
+    let t := class_tables h c in
+    iclean (snd t) None (init_state (fst t)) os = true ->
+    law_hist (mro_rule h c) i l_init (run (snd t) (init_state (fst t)) os) = [].
+Proof. exact interleaved_lives_single. Qed.
+Print Assumptions law_holds_on_interleaved_mapped_lives_under_mro_reading.
+
+(* the general form: from any state of the invariant (outside a life: the plain invariant; inside
+   the life of n: the plain invariant of the object with n and n_ erased, the pair installed, the
+   law's bookkeeping in agreement) *)
+Theorem law_holds_on_interleaved_mapped_lives_from_any_invariant_state :
+  forall ct0 pt (os : list op) (md : life) s ls (i : Z),
+    KI ct0 pt md s ls -> iclean pt md s os = true ->
+    law_hist (model_rule ct0 pt) i ls (run pt s os) = [].
+Proof. exact interleaved_lives. Qed.
+Print Assumptions law_holds_on_interleaved_mapped_lives_from_any_invariant_state.
+
+(* the hypothesis is a generalisation: every clean history on plain traits satisfies it *)
+Theorem clean_histories_are_interleaved_histories :
+  forall pt os s, clean_run pt s os = true -> iclean pt None s os = true.
+Proof. exact iclean_clean_run. Qed.
+Print Assumptions clean_histories_are_interleaved_histories.
+
+(* the step lemma that is new: during the life of n, a clean operation on a far name passes the
+   law's step check and preserves the in-life invariant *)
+Theorem far_operation_during_a_mapped_life_obeys_the_law :
+  forall ct0 pt n m d s ls o,
+    K ct0 pt n m d s ls -> far n (op_name o) = true -> clean_step s o = true ->
+    law_step (model_rule ct0 pt) ls o (snd (step pt s o)) = [] /\
+    K ct0 pt n m d (fst (step pt s o)) (law_next (model_rule ct0 pt) ls o (snd (step pt s o))).
+Proof. exact K_far. Qed.
+Print Assumptions far_operation_during_a_mapped_life_obeys_the_law.
+
+(* and the reason: on a far name whose traits are plain the model's step commutes with erasing
+   the pair from the object, and so does the law's bookkeeping *)
+Theorem far_step_commutes_with_erasing_the_pair :
+  forall n pt s o,
+    far n (op_name o) = true -> plain_at pt s (op_name o) ->
+    (forall k q, o = OAdd k q -> plainp q = true) ->
+    step pt (MapInterleave.erase n s) o = (MapInterleave.erase n (fst (step pt s o)), snd (step pt s o)).
+Proof. exact step_far. Qed.
+Print Assumptions far_step_commutes_with_erasing_the_pair.
+
+Theorem far_law_update_commutes_with_erasing_the_pair :
+  forall n (crule : name -> rule) ls o ob,
+    far n (op_name o) = true ->
+    (forall k q, o = OAdd k q -> plainp q = true) ->
+    (forall p, found_trait crule ls (op_name o) = Some p -> plainp p = true) ->
+    lerase n (law_next crule ls o ob) = law_next crule (lerase n ls) o ob.
+Proof. exact law_next_far. Qed.
+Print Assumptions far_law_update_commutes_with_erasing_the_pair.
+
+(* opening and closing a life between states of the two invariants *)
+Theorem add_trait_of_a_mapped_trait_opens_a_life :
+  forall ct0 pt n m d s ls, Inv ct0 pt s ls ->
+    law_step (model_rule ct0 pt) ls (OAdd n (PMap m d)) (snd (step pt s (OAdd n (PMap m d)))) = [] /\
+    K ct0 pt n m d (fst (step pt s (OAdd n (PMap m d))))
+      (law_next (model_rule ct0 pt) ls (OAdd n (PMap m d)) (snd (step pt s (OAdd n (PMap m d))))).
+Proof. exact K_start. Qed.
+Print Assumptions add_trait_of_a_mapped_trait_opens_a_life.
+
+Theorem remove_trait_closes_a_life_into_the_plain_invariant :
+  forall ct0 pt n m d s ls, K ct0 pt n m d s ls ->
+    law_step (model_rule ct0 pt) ls (ORem n) (snd (step pt s (ORem n))) = [] /\
+    Inv ct0 pt (fst (step pt s (ORem n))) (law_next (model_rule ct0 pt) ls (ORem n) (snd (step pt s (ORem n)))).
+Proof. exact K_end. Qed.
+Print Assumptions remove_trait_closes_a_life_into_the_plain_invariant.
+
+(* Non-vacuity: strict class with the wildcard a_; during the life of "ab" (Map({1: 11, 2: 12}))
+   the object gets add_trait("c"), writes, reads and deletes of "c", add_trait("d", Int),
+   remove_trait("c"); then remove_trait("ab"); then a life of "c" during which "ab" is used.
+   None of the earlier mapped-trait theorems covers this history. *)
+Example interleaved_lives_nontrivial :
+  let t := class_tables [mkClass [([97; 95], PTyped VInt 7)] [1%nat]] 3 in
+  let os := [OSet [99] 4; OAdd [99] (PAny 5); OSet [99] 6;
+             OAdd [97; 98] (PMap [(1, 11); (2, 12)] 1);
+             OGet [97; 98; 95]; OSet [99] 7; OSet [97; 98] 2; OAdd [100] (PTyped VInt 0);
+             OGet [100]; OSet [100] 101; ODel [99]; OGet [97; 98; 95]; OGet [99; 95]; ORem [99]; OGet [99];
+             OSet [97; 98] 5; OSet [97; 98; 95] 9; ODel [97; 98];
+             ORem [97; 98];
+             OGet [97; 98]; OSet [97; 98; 95] 3;
+             OAdd [99] (PMap [(2, 3); (6, 5)] 6);
+             OSet [97; 98] 1; OGet [99; 95]; OGet [97; 98; 95]; OSet [99] 2; ODel [100]; OGet [99; 95];
+             ORem [99]; OGet [99]] in
+  iclean (snd t) None (init_state (fst t)) os = true /\
+  length (run (snd t) (init_state (fst t)) os) = 30%nat.
+Proof. vm_compute. split; reflexivity. Qed.
